@@ -196,6 +196,7 @@ def run(ctx):
     f = prog.fn(BE + "::read")
     sl = Slicer(f.body)
     flow = Flow(f.body)
+    FORCE = f.body.names.get(2, "force_close_object")   # read(&mut self, force_close_object): first explicit parameter
     for bb, s in pkt_constructions(prog, f):
         names = s.rv.j["fnames"]
         e = sl.x.operand(s.rv.ops[names.index("close_object")])
@@ -225,25 +226,31 @@ def run(ctx):
         else:
             srcs = sl.sources(e)
             extra = [z for z in srcs if z.startswith("var:") and not re.match(
-                r"var:(force_close_object|self\.closabled_object|is_last_packet|is_last_symbol|self\.source_size_transferred|self\.blocks|self\.file|"
+                r"var:(" + re.escape(FORCE) + r"|self\.closabled_object|is_last_packet|is_last_symbol|self\.source_size_transferred|self\.blocks|self\.file|"
                 r"self\.block_multiplex_index|symbol|block|self\.nb_pkt_sent|self$|Arc::deref\(&self\.file\))", z)]
             key = "BlockEncoder::read data packet close_object sources"
-            if "var:force_close_object" in srcs and "var:self.closabled_object" in srcs:
+            if "var:" + FORCE in srcs and "var:self.closabled_object" in srcs:
                 r2.ok(key, "force_close_object || (closabled_object && last packet)", loc(s.sp))
             else:
                 r2.violation(key, "close_object no longer combines force_close_object and closabled_object (sources: %s)" % sorted(srcs)[:12], loc(s.sp))
     # stopped latch
+    latched = False
     for a in field_accesses(prog, BE, "stopped"):
         if a["kind"] == "assign" and a["func"].path == f.path:
             fs = flow.facts_at(a["bb"])
             key = "BlockEncoder::read stopped = %s" % show(a["value"])
-            if show(a["value"]) == "True" and any(ff[0][0] == "true" and ff[1] and show(ff[0][1]) == "force_close_object" for ff in fs):
+            if show(a["value"]) == "True" and any(ff[0][0] == "true" and ff[1] and show(ff[0][1]) == FORCE for ff in fs):
                 r2.ok(key, "latched under force_close_object", loc(a["sp"]))
+                latched = True
+            elif show(a["value"]) == FORCE and any(ff[0][0] == "true" and not ff[1] and show(ff[0][1]) == "self.stopped" for ff in fs):
+                # `self.stopped = force_close_object` where stopped is known to be false: sets the latch exactly when forced, never clears it
+                r2.ok(key, "assigned the force flag where `stopped` is known to be false", loc(a["sp"]))
+                latched = True
             else:
                 r2.violation(key, "`stopped` written outside the forced-close path", loc(a["sp"]))
         elif a["kind"] in ("assign", "assign_sub", "borrow_mut") and a["func"].path != f.path:
             r2.violation("%s writes BlockEncoder.stopped" % a["func"].path, "stopped written outside read()", loc(a["sp"]))
-    if not any(a["kind"] == "assign" and a["func"].path == f.path and show(a["value"]) == "True" for a in field_accesses(prog, BE, "stopped")):
+    if not latched:
         r2.violation("BlockEncoder::read latches stopped", "force_close_object no longer latches `stopped`: packets keep flowing after the forced close-object packet", loc(f.sp))
     # first statement: if self.stopped return None
     nones = ret_assign_blocks(f.body, lambda e: is_variant(e, "None"))
